@@ -998,9 +998,6 @@ LOCAL_KNOWN_FINDINGS = [{
 
 def run(ctx):
     import time
-    for kf in LOCAL_KNOWN_FINDINGS:
-        if kf["id"] not in [k.get("id") for k in ctx.known]:
-            ctx.known.append(kf)
     s = suite(ctx)
     s.run(corr.load_corpus("C08", s.name), "corpus")
     rng = ctx.rng
